@@ -39,6 +39,23 @@ type Oblig struct {
 type region struct {
 	mem         string
 	ref, lo, hi string
+	// sub, when non-nil, narrows a one-cell region of a struct-valued field to the
+	// nested component it selects (fields only); subT is the type of the cell.
+	sub  []pathEl
+	subT types.Type
+}
+
+// subPrefix reports whether path a (fields only) is a prefix of path b.
+func subPrefix(a, b []pathEl) bool {
+	if len(a) > len(b) {
+		return false
+	}
+	for i := range a {
+		if a[i].IsIdx || b[i].IsIdx || a[i].Field != b[i].Field {
+			return false
+		}
+	}
+	return true
 }
 
 type loopInfo struct {
